@@ -277,7 +277,7 @@ def run_library(inputs, registry, cmps, job, dict_fields=(), dict_regex=()):
         # the registry has been rendered once before, in the other layout (a library user may emit both): the text under
         # test is the second rendering
         try:
-            stages.render_impl(reg, dict(job, layout=job["renderFirst"]))
+            stages.render_impl(reg, dict(job, layout=job["renderFirst"], fw=job.get("renderFirstFw", job["fw"])))
         except Exception:  # noqa
             pass
     if job.get("structureReuse") and job.get("convertUnicode", True):
